@@ -40,7 +40,11 @@ def run_item(prop, item, seed, make_monitor, max_len=60, styles=None, after_last
         if styles:
             kw["styles"] = styles
 
+        counter = {"i": 0}
+
         def one(key, plan):
+            plan = episodes.restyle(plan, counter["i"], b.name)
+            counter["i"] += 1
             rec = episodes.Recorder(ctx, b, key)
             mon = make_monitor(b, ctx, shared)
             with ctx.guard(item["env"], rec.case(), size=10**6):
